@@ -63,9 +63,14 @@ IsNumSlice(kind) == kind \in NumSliceKinds
 ElemKind(kind) == CHOOSE k \in NumKinds : k \o "s" = kind
 \* conversion oracle: g.conv[kind][joined text] = "fail" or the canonical value (Conv.tla for integers, the logged
 \* strconv table for floats); a text missing from the table makes the case unjudgeable ("skip")
+\* fields of user types (Capture / TextUnmarshaler, and slices of Capture elements): the harness's implementations reject the
+\* text "300" with an error, every other text is accepted
+IsUserText(kind) == kind \in {"capt", "textu", "capts", "pcapts"}
+UserTextOK(d) == \A j \in 1..Len(d.vals) : ("s" \in DOMAIN d.vals[j]) => d.vals[j].s # "300"
 ConvKnown(g, d) == IF IsNumSlice(d.kind) THEN \A j \in 1..Len(d.vals) : ("s" \in DOMAIN d.vals[j]) => d.vals[j].s \in DOMAIN g.conv[ElemKind(d.kind)]
                    ELSE ~IsNum(d.kind) \/ Len(d.vals) = 0 \/ JoinVals(d.vals, 1) \in DOMAIN g.conv[d.kind]
-ConvOK(g, d) == IF IsNumSlice(d.kind) THEN \A j \in 1..Len(d.vals) : ("s" \in DOMAIN d.vals[j]) => g.conv[ElemKind(d.kind)][d.vals[j].s] # "fail"
+ConvOK(g, d) == IF IsUserText(d.kind) THEN UserTextOK(d)
+                ELSE IF IsNumSlice(d.kind) THEN \A j \in 1..Len(d.vals) : ("s" \in DOMAIN d.vals[j]) => g.conv[ElemKind(d.kind)][d.vals[j].s] # "fail"
                 ELSE ~IsNum(d.kind) \/ Len(d.vals) = 0
                      \/ (LET t == JoinVals(d.vals, 1) IN t \in DOMAIN g.conv[d.kind] /\ g.conv[d.kind][t] # "fail")
 \* setField over a list of deferred captures, stopping at the first conversion error (context.go Apply)
@@ -253,7 +258,7 @@ CanonField(env, log, id, p, fld) ==
        [] kind = "pstring" -> IF Len(ws) = 0 THEN "nil" ELSE Q(JoinSeq([i \in 1..Len(ws) |-> JoinStr(ws[i].vals, 1)], 1, ""))
        \* "capt": a field of a user type implementing participle.Capture that appends what it is given (like []string)
        \* "textu": the same for encoding.TextUnmarshaler (called once per captured value)
-       [] kind \in {"strings", "capt", "textu"} -> LET fv == FlatVals(ws, 1) IN "[" \o JoinSeq([j \in 1..Len(fv) |-> Q(fv[j].s)], 1, ",") \o "]"
+       [] kind \in {"strings", "capt", "textu", "capts", "pcapts"} -> LET fv == FlatVals(ws, 1) IN "[" \o JoinSeq([j \in 1..Len(fv) |-> Q(fv[j].s)], 1, ",") \o "]"
        [] IsNumSlice(kind) -> (LET fv == FlatVals(ws, 1) IN "[" \o JoinSeq([j \in 1..Len(fv) |-> env.g.conv[ElemKind(kind)][fv[j].s]], 1, ",") \o "]")
        [] IsNum(kind) -> (LET nz == SelectSeq(ws, LAMBDA w : Len(w.vals) > 0) IN
                           IF Len(nz) = 0 THEN "0" ELSE env.g.conv[kind][JoinVals(nz[Len(nz)].vals, 1)])
